@@ -222,6 +222,18 @@ type VOp struct {
 	N     int               `json:"n,omitempty"`
 }
 
+// allEnts: the entities of a batch op; N > 0 adds N generated entities g1..gN (a large batch).
+func (o VOp) allEnts() []VEnt {
+	if o.K != "batch" || o.N <= 0 {
+		return o.Ents
+	}
+	l := append([]VEnt{}, o.Ents...)
+	for i := 1; i <= o.N; i++ {
+		l = append(l, VEnt{ID: fmt.Sprintf("g%d", i), C: 0})
+	}
+	return l
+}
+
 func (o VOp) String() string {
 	b, _ := json.Marshal(o)
 	return string(b)
@@ -258,7 +270,7 @@ func (h *VHist) ApplyWrite(op VOp) error {
 		if ds == nil {
 			return fmt.Errorf("harness: no dataset %s", op.DS)
 		}
-		es, ms := h.ents(op.Ents)
+		es, ms := h.ents(op.allEnts())
 		if err := ds.StoreEntities(es); err != nil {
 			return err
 		}
